@@ -138,6 +138,8 @@ class IRGen:
             branches = [self.scalar(concrete=False) for _ in range(r.randint(2, 3))]
         elif c < 0.45:
             branches = [self.type(pkg, depth + 1), {"k": "scalar", "sk": "null"}]
+            if r.random() < 0.4:
+                branches.reverse()          # `null | T` is as legal as `T | null`
         elif c < 0.6:
             branches = [self.scalar("string", concrete=True) for _ in range(r.randint(2, 3))]
         elif c < 0.8:
@@ -171,7 +173,17 @@ class IRGen:
         if c < 0.80:
             return self.enum()
         if c < 0.92:
-            return self.disj(pkg, depth)
+            # the same union often occurs several times in a schema (required here, optional there)
+            pool = self.__dict__.setdefault("union_pool", [])
+            if pool and r.random() < 0.3:
+                import copy as _copy
+                u = _copy.deepcopy(r.choice(pool))
+                u.pop("null", None)
+                return u
+            u = self.disj(pkg, depth)
+            if len(pool) < 6:
+                pool.append(u)
+            return u
         if c < 0.96:
             return {"k": "inter", "branches": [self.type(pkg, depth + 1) for _ in range(r.randint(1, 3))]}
         if c < 0.98 and self.universe:
